@@ -9,6 +9,6 @@ Definition judge_C04 (c : dcase) : N :=
   let sp := conforms (dc_opts c) XN (dc_doc c) in
   if Bool.eqb (dc_go c) mo then
     (if Bool.eqb mo sp then J_OK
-     else let k := first_class (dc_opts c) MDirect (dc_doc c) in
+     else let k := first_class (dc_opts c) MDirect XN (dc_doc c) in
           if N.eqb k 0 then J_VIOL else J_KNOWN k)
   else if Bool.eqb (dc_go c) sp then J_DRIFT else J_VIOL.
